@@ -19,10 +19,12 @@ type St struct {
 	Marks []string // who touched the state (order is schedule dependent, content is not)
 	Tag   string   // run tag of the run that generated this state
 	ID    int      // identity given by the generator function
+	Saved map[string]map[string]any // inputs saved by the pre-handlers of nodes that may ask for a re-run
 }
 
 func init() {
 	_ = compose.RegisterSerializableType[St]("verif_state")
+	_ = compose.RegisterSerializableType[map[string]any]("verif_map")
 }
 
 type lopt struct{ Tag string }
@@ -61,6 +63,8 @@ type ExecRec struct {
 	Aborted  bool // answered InterruptAndRerun
 	Failed   bool
 	Known    bool // the input is known (a lazy transform may never learn it)
+	Call     int  // index of the call of the history in which the execution started
+	Step     int  // scheduler step at which the node function was called
 }
 
 // Env is the harness memory of one simulated history. Only the released task touches it.
@@ -75,6 +79,10 @@ type Env struct {
 	States     []*St
 	StatePath  map[*St]string
 	CritCount  map[*St]int // entries into the critical section per state object
+	CurCall    int
+	LastState  map[string]*St // graph path -> state object last seen there
+	StateLineage map[*St]string
+	abortedLast map[string]bool // tag|path -> the last attempt asked for a re-run
 	inCrit     map[*St]string // mutual exclusion monitor
 	Problems   []Problem
 	Faults     map[string]int
@@ -89,7 +97,8 @@ type Problem struct{ Class, Msg string }
 func NewEnv(s *kernel.Sim) *Env {
 	return &Env{S: s, branchEval: map[string]int{}, execCount: map[string]int{}, doneCount: map[string]int{},
 		inCrit: map[*St]string{}, Faults: map[string]int{}, Probes: map[string]int{}, Callbacks: &CBLog{},
-		StatePath: map[*St]string{}, CritCount: map[*St]int{}}
+		StatePath: map[*St]string{}, CritCount: map[*St]int{}, LastState: map[string]*St{}, StateLineage: map[*St]string{},
+		abortedLast: map[string]bool{}}
 }
 
 func (e *Env) Seq() int { e.seq++; return e.seq }
@@ -212,6 +221,26 @@ type builder struct {
 	store compose.CheckPointStore
 }
 
+// statePathOf returns the path of the nearest graph with state that encloses the node.
+func (b *builder) statePathOf(full string) string {
+	p := b.top
+	path := ""
+	statePath := ""
+	parts := strings.Split(full, "/")
+	for i := 0; i < len(parts)-1; i++ {
+		n := p.node(parts[i])
+		if n == nil || n.Sub == nil {
+			break
+		}
+		path = joinPath(path, parts[i])
+		p = n.Sub
+		if p.State {
+			statePath = path
+		}
+	}
+	return statePath
+}
+
 // emit turns a value into a stream according to the node's chunking settings.
 func (b *builder) emit(ctx context.Context, n *Node, full string, out M, failMid error) *schema.StreamReader[M] {
 	chunks := chunksOf(out, n.Cut)
@@ -248,7 +277,7 @@ func (b *builder) begin(ctx context.Context, full string, paradigm int) *ExecRec
 	ck := tag + "|" + full
 	idx := e.execCount[ck]
 	e.execCount[ck] = idx + 1
-	rec := &ExecRec{Tag: tag, Path: full, Input: "?", Idx: idx, Start: e.Seq(), Paradigm: paradigm}
+	rec := &ExecRec{Tag: tag, Path: full, Input: "?", Idx: idx, Start: e.Seq(), Paradigm: paradigm, Call: e.CurCall, Step: e.S.Step()}
 	e.Execs = append(e.Execs, rec)
 	e.S.Log(fmt.Sprintf("call %s %s #%d", tag, full, idx))
 	return rec
@@ -268,7 +297,7 @@ func (b *builder) body(ctx context.Context, p *Plan, n *Node, full string, in M,
 	}
 	if n.UseState {
 		err := compose.ProcessState[*St](ctx, func(ctx context.Context, st *St) error {
-			b.critical(ctx, st, "body:"+full)
+			b.critical(ctx, st, "body:"+full, b.statePathOf(full))
 			return nil
 		})
 		if err != nil {
@@ -279,6 +308,7 @@ func (b *builder) body(ctx context.Context, p *Plan, n *Node, full string, in M,
 	if n.RerunN > 0 && idx < n.RerunN && b.store != nil {
 		rec.Aborted = true
 		rec.End = e.Seq()
+		e.abortedLast[ck] = true
 		e.Faults["interrupt_and_rerun"]++
 		return nil, compose.InterruptAndRerun
 	}
@@ -301,12 +331,14 @@ func (b *builder) body(ctx context.Context, p *Plan, n *Node, full string, in M,
 
 // critical is the read-yield-write section every state access runs: it is the mutual
 // exclusion and lost-update monitor of C11.
-func (b *builder) critical(ctx context.Context, st *St, who string) {
+func (b *builder) critical(ctx context.Context, st *St, who string, statePath string) {
 	e := b.env
 	if st == nil {
 		e.problem("C11/nil-state", who)
 		return
 	}
+	e.LastState[statePath] = st
+	e.StateLineage[st] = statePath
 	if other, busy := e.inCrit[st]; busy {
 		e.problem("C11/mutual-exclusion", fmt.Sprintf("%s entered the state critical section while %s was inside", who, other))
 	}
@@ -439,7 +471,22 @@ func (b *builder) nodeOpts(p *Plan, n *Node, full string) []compose.GraphAddNode
 	case HValue:
 		opts = append(opts, compose.WithStatePreHandler(func(ctx context.Context, in M, st *St) (M, error) {
 			e.HandlerLog = append(e.HandlerLog, fmt.Sprintf("%d pre %s %s", e.Seq(), tagOf(ctx), full))
-			b.critical(ctx, st, "pre:"+full)
+			b.critical(ctx, st, "pre:"+full, b.statePathOf(full))
+			if n.RerunN > 0 && st != nil {
+				// a node that may ask for a re-run keeps its input in the state: the framework hands
+				// the re-run a zero input and expects the pre-handler to rebuild it
+				ck := tagOf(ctx) + "|" + full
+				if e.abortedLast[ck] {
+					e.abortedLast[ck] = false
+					in = st.Saved[full]
+					e.Probes["input_rebuilt_from_state"]++
+				} else {
+					if st.Saved == nil {
+						st.Saved = map[string]map[string]any{}
+					}
+					st.Saved[full] = in
+				}
+			}
 			out := clone(in)
 			if out == nil {
 				out = M{}
@@ -450,7 +497,7 @@ func (b *builder) nodeOpts(p *Plan, n *Node, full string) []compose.GraphAddNode
 	case HStream:
 		opts = append(opts, compose.WithStreamStatePreHandler(func(ctx context.Context, in *schema.StreamReader[M], st *St) (*schema.StreamReader[M], error) {
 			e.HandlerLog = append(e.HandlerLog, fmt.Sprintf("%d pre %s %s", e.Seq(), tagOf(ctx), full))
-			b.critical(ctx, st, "pre:"+full)
+			b.critical(ctx, st, "pre:"+full, b.statePathOf(full))
 			extra := schema.StreamReaderFromArray([]M{{"pre:" + n.Key: "1"}})
 			return schema.MergeStreamReaders([]*schema.StreamReader[M]{in, extra}), nil
 		}))
@@ -459,7 +506,7 @@ func (b *builder) nodeOpts(p *Plan, n *Node, full string) []compose.GraphAddNode
 	case HValue:
 		opts = append(opts, compose.WithStatePostHandler(func(ctx context.Context, out M, st *St) (M, error) {
 			e.HandlerLog = append(e.HandlerLog, fmt.Sprintf("%d post %s %s", e.Seq(), tagOf(ctx), full))
-			b.critical(ctx, st, "post:"+full)
+			b.critical(ctx, st, "post:"+full, b.statePathOf(full))
 			o := clone(out)
 			if o == nil {
 				o = M{}
@@ -470,7 +517,7 @@ func (b *builder) nodeOpts(p *Plan, n *Node, full string) []compose.GraphAddNode
 	case HStream:
 		opts = append(opts, compose.WithStreamStatePostHandler(func(ctx context.Context, out *schema.StreamReader[M], st *St) (*schema.StreamReader[M], error) {
 			e.HandlerLog = append(e.HandlerLog, fmt.Sprintf("%d post %s %s", e.Seq(), tagOf(ctx), full))
-			b.critical(ctx, st, "post:"+full)
+			b.critical(ctx, st, "post:"+full, b.statePathOf(full))
 			extra := schema.StreamReaderFromArray([]M{{"post:" + n.Key: "1"}})
 			return schema.MergeStreamReaders([]*schema.StreamReader[M]{out, extra}), nil
 		}))
@@ -685,5 +732,4 @@ func (b *builder) Compile(ctx context.Context, p *Plan) (compose.Runnable[M, M],
 	return nil, fmt.Errorf("unknown graph type %T", g)
 }
 
-var _ = strings.Join
 var _ = kernel.PolUniform
